@@ -300,3 +300,20 @@ example :
         s.hist.length = 1)) = some true := by decide +kernel
 
 end Woodpile.Props.C18
+
+namespace Woodpile.Props.C18
+open Woodpile.Abt
+
+/-- RA, constant bound: when every load reads the LATEST message of its location (the admissible
+strategy `RA.pickLatest`, `ra_latest_admissible`: what a machine with one copy of memory does),
+the solo reader returns within 6 own steps from any reachable state - exactly the SC bound of
+`sc_solo_snapshot_terminates`.  The state-dependent bound of
+`ra_solo_snapshot_terminates_uniform` is the price of ARBITRARY admissible reads-from choices. -/
+theorem ra_solo_latest_terminates {chk : Nat → Nat → Bool} {v0 : Nat} (h0 : chk 0 v0 = true) {s : RA.State}
+    (h : RA.Reachable chk v0 s) (t : Nat) (hpc : (s.thr t).loc.pc.inSnap = true) :
+    ∃ k, k ≤ 6 ∧ ∃ s', RA.solo chk t (RA.pickLatest t) 0 k s = some s' ∧
+      (s'.thr t).loc.pc = .retSnap ∧ s'.mem = s.mem :=
+  ⟨RA.latestMeasure s t, RA.latestMeasure_le s t,
+    RA.latest_terminates t _ 0 s (RA.inv_reachable h0 h) hpc rfl⟩
+
+end Woodpile.Props.C18
